@@ -165,6 +165,95 @@ theorem C14_order_current_height_first (s : PState) (i j r1 r2 t1 t2 n1 n2 h2 : 
   · simp [prior, scoreMessageType, compareHeightOrSlot, scoreHeight, hne, hgt]
   · simp [prior, scoreMessageType, compareHeightOrSlot, scoreHeight, hne, hgt]
 
+/-! ### the rest of the documented order, clause by clause -/
+
+/-- non-event message -/
+def nonEvent (m : Msg) : Prop := ∀ t, m.body ≠ .event t
+
+theorem smt_nonEvent (m : Msg) (h : nonEvent m) : scoreMessageType m = 0 := by
+  obtain ⟨i, b⟩ := m
+  cases b with
+  | event t => exact absurd rfl (h t)
+  | consensus => simp [scoreMessageType]
+  | partialSig => simp [scoreMessageType]
+
+/-- among non-event messages (consensus AND partial-signature traffic) everything for the current height / slot
+    goes strictly before everything for another height / slot, whatever the types, rounds and running state -/
+theorem C14_order_current_before_other (s : PState) (a b : Msg) (ha : nonEvent a) (hb : nonEvent b)
+    (hca : compareHeightOrSlot s a = 1) (hcb : compareHeightOrSlot s b ≠ 1) :
+    prior s a b = true ∧ prior s b a = false := by
+  have h2 : compareHeightOrSlot s b = 0 ∨ compareHeightOrSlot s b = 2 := by
+    have : compareHeightOrSlot s b ≤ 2 := by
+      unfold compareHeightOrSlot; split <;> (try split) <;> (try split) <;> omega
+    omega
+  rcases h2 with h2 | h2 <;> simp [prior, smt_nonEvent a ha, smt_nonEvent b hb, hca, h2, scoreHeight]
+
+/-- … and everything for a later height / slot strictly before everything for an earlier one -/
+theorem C14_order_future_before_past (s : PState) (a b : Msg) (ha : nonEvent a) (hb : nonEvent b)
+    (hca : compareHeightOrSlot s a = 2) (hcb : compareHeightOrSlot s b = 0) :
+    prior s a b = true ∧ prior s b a = false := by
+  simp [prior, smt_nonEvent a ha, smt_nonEvent b hb, hca, hcb, scoreHeight]
+
+/-- current height, instance running: consensus strictly before pre-consensus strictly before post-consensus
+    partial signatures of the current slot -/
+theorem C14_order_running_subtypes (s : PState) (hr : s.hasRunningInstance = true) (i j k r t n : Nat) :
+    prior s ⟨i, .consensus s.height r t n⟩ ⟨j, .partialSig s.slot false⟩ = true ∧
+    prior s ⟨j, .partialSig s.slot false⟩ ⟨i, .consensus s.height r t n⟩ = false ∧
+    prior s ⟨j, .partialSig s.slot false⟩ ⟨k, .partialSig s.slot true⟩ = true ∧
+    prior s ⟨k, .partialSig s.slot true⟩ ⟨j, .partialSig s.slot false⟩ = false := by
+  simp [prior, scoreMessageType, compareHeightOrSlot, scoreMessageSubtype, hr, isConsensus, isPre, isPost]
+
+/-- current height, no instance running: pre-consensus before post-consensus before consensus -/
+theorem C14_order_idle_subtypes (s : PState) (hr : s.hasRunningInstance = false) (i j k r t n : Nat) :
+    prior s ⟨j, .partialSig s.slot false⟩ ⟨k, .partialSig s.slot true⟩ = true ∧
+    prior s ⟨k, .partialSig s.slot true⟩ ⟨j, .partialSig s.slot false⟩ = false ∧
+    prior s ⟨k, .partialSig s.slot true⟩ ⟨i, .consensus s.height r t n⟩ = true ∧
+    prior s ⟨i, .consensus s.height r t n⟩ ⟨k, .partialSig s.slot true⟩ = false := by
+  simp [prior, scoreMessageType, compareHeightOrSlot, scoreMessageSubtype, hr, isConsensus, isPre, isPost]
+
+/-- current-height consensus traffic: the current round strictly before later rounds strictly before earlier rounds -/
+theorem C14_order_rounds (s : PState) (i j k t1 t2 t3 n1 n2 n3 r2 r3 : Nat) (h2 : r2 > s.round) (h3 : r3 < s.round) :
+    prior s ⟨i, .consensus s.height s.round t1 n1⟩ ⟨j, .consensus s.height r2 t2 n2⟩ = true ∧
+    prior s ⟨j, .consensus s.height r2 t2 n2⟩ ⟨i, .consensus s.height s.round t1 n1⟩ = false ∧
+    prior s ⟨j, .consensus s.height r2 t2 n2⟩ ⟨k, .consensus s.height r3 t3 n3⟩ = true ∧
+    prior s ⟨k, .consensus s.height r3 t3 n3⟩ ⟨j, .consensus s.height r2 t2 n2⟩ = false := by
+  have e2 : r2 ≠ s.round := by omega
+  have e3 : r3 ≠ s.round := by omega
+  have g3 : ¬ r3 > s.round := by omega
+  cases hr : s.hasRunningInstance <;>
+    simp [prior, scoreMessageType, compareHeightOrSlot, scoreMessageSubtype, hr, isConsensus, isPre, isPost,
+      scoreRound, e2, e3, h2, g3]
+
+/-- same height and round: proposal before prepare before commit before round-change -/
+theorem C14_order_types (s : PState) (i j r n1 n2 t1 t2 : Nat) (ht1 : t1 < t2) (ht2 : t2 ≤ 3) :
+    prior s ⟨i, .consensus s.height r t1 n1⟩ ⟨j, .consensus s.height r t2 n2⟩ = true ∧
+    prior s ⟨j, .consensus s.height r t2 n2⟩ ⟨i, .consensus s.height r t1 n1⟩ = false := by
+  have : (t1 = 0 ∧ (t2 = 1 ∨ t2 = 2 ∨ t2 = 3)) ∨ (t1 = 1 ∧ (t2 = 2 ∨ t2 = 3)) ∨ (t1 = 2 ∧ t2 = 3) := by omega
+  cases hr : s.hasRunningInstance <;>
+  rcases this with ⟨rfl, rfl | rfl | rfl⟩ | ⟨rfl, rfl | rfl⟩ | ⟨rfl, rfl⟩ <;>
+    simp [prior, scoreMessageType, compareHeightOrSlot, scoreMessageSubtype, hr, isConsensus, isPre, isPost,
+      scoreRound, scoreConsensusType]
+
+/-- other heights: a decided message (commit with more than a quorum… as the code tests it: `len(signers) > quorum`)
+    strictly before every non-decided message of the same side -/
+theorem C14_order_decided_first (s : PState) (i j h r1 r2 t2 n1 n2 : Nat) (hh : h ≠ s.height)
+    (hd : n1 > s.quorum) (hnd : ¬ (t2 = 2 ∧ n2 > s.quorum)) :
+    prior s ⟨i, .consensus h r1 2 n1⟩ ⟨j, .consensus h r2 t2 n2⟩ = true ∧
+    prior s ⟨j, .consensus h r2 t2 n2⟩ ⟨i, .consensus h r1 2 n1⟩ = false := by
+  have hnd' : isDecided s ⟨j, .consensus h r2 t2 n2⟩ = false := by
+    simp [isDecided]; intro e; subst e; omega
+  have hd' : isDecided s ⟨i, .consensus h r1 2 n1⟩ = true := by simp [isDecided, hd]
+  by_cases hgt : h > s.height
+  · simp [prior, scoreMessageType, compareHeightOrSlot, hh, hgt, scoreMessageSubtype, hd', hnd', isPre, isConsensus]
+  · simp [prior, scoreMessageType, compareHeightOrSlot, hh, hgt, scoreMessageSubtype, hd', hnd', isCommit]
+    by_cases e : t2 = 2 <;> simp [e]
+
+/-- non-vacuity: concrete messages meet the hypotheses of the order theorems -/
+example : nonEvent ⟨1, .consensus 5 1 0 1⟩ ∧ nonEvent ⟨2, .partialSig 4 true⟩ ∧
+    compareHeightOrSlot ⟨true, 5, 1, 5, 3⟩ ⟨1, .consensus 5 1 0 1⟩ = 1 ∧
+    compareHeightOrSlot ⟨true, 5, 1, 5, 3⟩ ⟨2, .partialSig 4 true⟩ = 0 := by
+  refine ⟨by intro t; simp, by intro t; simp, by decide, by decide⟩
+
 /-! ## every operation sequence / interleaving -/
 
 /-- the atomic steps of the queue plus the public composite operations; `prior`/`adm` of each pop are arbitrary -/
